@@ -153,13 +153,16 @@ int main(int argc, char** argv)
     static char obuf[1 << 16];
     setvbuf(stdout, obuf, _IOFBF, sizeof obuf);
     std::string line;
-    State st;
+    // Two library slots: ops act on slot 0 unless they carry "lib": 1 (a second library open in the same process at the
+    // same time); "observe_all_b" is observe_all on slot 1 under another name, so that judges can tell them apart.
+    State slots[2];
     while (std::getline(in, line))
     {
         if (line.empty()) continue;
         json c = json::parse(line);
         emit({{"case", c["id"]}});
-        st.reset();
+        slots[0].reset();
+        slots[1].reset();
         // every case starts in UTC; an op may carry "tz" (a POSIX TZ string) to move the process into another zone
         setenv("TZ", "UTC0", 1);
         tzset();
@@ -175,6 +178,13 @@ int main(int argc, char** argv)
             ev["i"] = i++;
             std::string name = op["op"].get<std::string>();
             ev["op"] = name;
+            int slot = op.value("lib", 0) ? 1 : 0;
+            if (name == "observe_all_b")
+            {
+                name = "observe_all";
+                slot = 1;
+            }
+            State& st = slots[slot];
             if (op.contains("tz"))
             {
                 setenv("TZ", op["tz"].get<std::string>().c_str(), 1);
@@ -229,7 +239,8 @@ int main(int argc, char** argv)
             shim_disarm();
             emit(ev);
         }
-        st.reset();
+        slots[0].reset();
+        slots[1].reset();
         emit({{"end", c["id"]}});
     }
     return 0;
